@@ -12,10 +12,13 @@ from checks import scope_common
 def run_rename(out, cases, seed, name):
     d = vlib.workdir("c07-" + name)
     import os
-    path = os.path.join(d, "programs.ndjson")
-    with open(path, "w") as f:
-        for c in cases:
-            f.write(json.dumps(c) + "\n")
+    if isinstance(cases, scope_common.Programs):
+        path = cases.path
+    else:
+        path = os.path.join(d, "programs.ndjson")
+        with open(path, "w") as f:
+            for c in cases:
+                f.write(json.dumps(c) + "\n")
     p = vlib.run_bin("renamecheck", ["--threads", str(vlib.NCPU)], stdin_path=path, env={"VERIF_SEED": str(seed)}, timeout=7200)
     if p.returncode != 0:
         raise vlib.ToolError("renamecheck crashed: " + p.stderr.decode()[-2000:])
@@ -30,13 +33,14 @@ def run_rename(out, cases, seed, name):
 def run(out, tier, seed):
     main, _ = scope_common.programs(out, tier, seed)
     s = run_rename(out, main, seed, "main")
+    last = main.last()
     if s["edit_sets_equal"] < 1000:
         raise vlib.ToolError("too few accepted renames - vacuous run")
     out.cov["traces_validated_against_impl"] += s["programs"]
     out.cov["evaluations"] += s["renames_tried"]
     out.cov["distinct_nontrivial"] += s["edit_sets_equal"]
     out.cov["samples"] += [{"refusal_messages_seen": s["refusal_messages"], "renames_tried": s["renames_tried"], "refused": s["refused"]},
-                           {"program": " ".join(t["t"] for t in main[-1]["out"] if t["r"] not in ("open", "close")), "ren": main[-1]["ren"]}]
+                           {"program": " ".join(t["t"] for t in last["out"] if t["r"] not in ("open", "close")), "ren": last["ren"]}]
     out.cov["exhaustive"] = True
     out.cov["rule"] = ("every declaration (local binder of every pattern form, parameter, function, constant, library function/constructor/"
                        "constant reached through qualified or unqualified imports) of every GleamGen program (BFS budget + simulation) is renamed "
